@@ -4,12 +4,16 @@ mod driver;
 mod enc;
 mod c09;
 mod c10;
+mod c06;
+mod c07;
+mod cfimodel;
+mod exprvm;
 
 use crate::core::{Prop, Tier};
 use std::path::Path;
 
 pub fn props() -> Vec<&'static dyn Prop> {
-    vec![&c09::C09, &c10::C10]
+    vec![&c06::C06, &c07::C07, &c09::C09, &c10::C10]
 }
 
 pub fn find(id: &str) -> Option<&'static dyn Prop> {
